@@ -523,6 +523,13 @@ func symIntrinsic(name string) nativeFn {
 			r.addPC(fmt.Sprintf("(str.in_re %s (re.* (re.range \" \" \"~\")))", v.term))
 			return v
 		}
+	case "verifStrAny":
+		return func(fr *frame, args []value) value {
+			r := fr.i.R
+			v := r.declare(str(args[0]), 's')
+			r.addPC(fmt.Sprintf("(<= (str.len %s) %d)", v.term, asInt64(args[1])))
+			return v
+		}
 	case "verifStrB":
 		return func(fr *frame, args []value) value {
 			return fr.i.R.declareBytes(str(args[0]), int(asInt64(args[1])), str(args[2]))
